@@ -1,9 +1,41 @@
-(* C16 — first results; the full characterisation lives in Proofs/C16Main.v (to follow). *)
-From Coq Require Import String Ascii ZArith List Bool Arith Lia.
-From RV Require Import Base.Val Gen.Common Model.Bpseq Model.Milp Model.AllDb.
+(* C16 — the all-dot-brackets list is exactly the set of greedy-stable assignments: pins and theorems about
+   Model.AllDb, which the correspondence check ties to BpSeq.all_dot_brackets.  Only `exact`. *)
+From Coq Require Import String Ascii ZArith List Bool Arith Lia Permutation.
+From RV Require Import Base.Val Gen.Common Model.Bpseq Model.Milp Model.AllDb Proofs.FirstFit Proofs.C16Main.
 Import ListNotations.
 
 (* pin: the final list is sorted (deterministic order, also needed by C14) *)
 Lemma C16_pin_sorted : alldb_sorted = true.
 Proof. reflexivity. Qed.
 Print Assumptions C16_pin_sorted.
+
+(* first-fit along any duplicate-free order never runs out of levels *)
+Theorem C16_firstfit_total : forall adj perm, exists res, firstfit adj perm = Ok res.
+Proof. exact firstfit_total. Qed.
+Print Assumptions C16_firstfit_total.
+
+(* ... and gives a proper assignment in which every vertex on level k has a neighbour on every level below k *)
+Theorem C16_firstfit_stable : forall adj, (forall i j, adj i j = adj j i) -> (forall i, adj i i = false) ->
+    forall perm res, NoDup perm -> firstfit adj perm = Ok res -> coloured_ok adj res /\ map fst res = perm.
+Proof. exact firstfit_ok. Qed.
+Print Assumptions C16_firstfit_stable.
+
+(* conversely every such assignment is the first-fit result along some order (its vertices sorted by level) *)
+Theorem C16_stable_is_firstfit : forall adj (a : assoc), coloured_ok adj a ->
+    exists perm a', Permutation perm (map fst a) /\ firstfit adj perm = Ok a' /\ Permutation a' a.
+Proof. exact stable_is_firstfit. Qed.
+Print Assumptions C16_stable_is_firstfit.
+
+(* the enumeration tries every order *)
+Theorem C16_perms : forall c l, In l (perms c) <-> Permutation l c.
+Proof. exact perms_iff. Qed.
+Print Assumptions C16_perms.
+
+(* one group of crossing stems: the list of its level assignments never fails, has no repetition, and holds exactly the
+   greedy-stable assignments of the group *)
+Theorem C16_component : forall adj, (forall i j, adj i j = adj j i) -> (forall i, adj i i = false) ->
+    forall comp, NoDup comp ->
+    exists L, component_colourings adj comp = Ok L /\ NoDup L /\
+              forall c, In c L <-> exists a, coloured_ok adj a /\ Permutation (map fst a) comp /\ c = canon a comp.
+Proof. exact component_colourings_spec. Qed.
+Print Assumptions C16_component.
